@@ -275,7 +275,7 @@ fn atomic_write_file(path: &Path, payload: &[u8]) -> std::io::Result<()> {
 
 #[cfg(kani)]
 #[path = "/verif/harness/ripd/local_authority.rs"]
-mod verif_kani;
+pub mod verif_kani;
 
 #[cfg(test)]
 mod tests {
